@@ -31,7 +31,7 @@ theorem connect_reconnect (env : CryptoEnv) (o : Oracle) (c : Ctx) (addrs : List
   · exact foldl_connectSock_reconnect env o _ c
 
 theorem foldl_connect_reconnect (env : CryptoEnv) (o : Oracle) (now : Int) (l : List Reconnect) (c : Ctx) :
-    (l.foldl (fun c e => if e.next > now then c else connect env o c e.resolved) c).node.reconnect = c.node.reconnect := by
+    (l.foldl (fun c e => if Generated.reconnectNotDue e.next now then c else connect env o c e.resolved) c).node.reconnect = c.node.reconnect := by
   induction l generalizing c with
   | nil => rfl
   | cons e l ih =>
